@@ -12,6 +12,8 @@ import (
 	"sort"
 	"sync"
 	"time"
+
+	"github.com/jackc/pgx/v5/pgconn"
 )
 
 type rowKey struct {
@@ -456,10 +458,17 @@ func (s *Session) stmt(task string, fn func() error) error {
 		s.commitTopLocked(task)
 		return nil
 	}
-	if err != nil {
+	if err != nil && abortsTx(err) {
 		s.top().aborted = true
 	}
 	return err
+}
+
+// abortsTx: only a server-side error aborts the transaction; "no rows" and errors raised by the
+// harness itself are not SQL errors.
+func abortsTx(err error) bool {
+	var pge *pgconn.PgError
+	return errors.As(err, &pge)
 }
 
 // abandonStmt is called when a parked statement is given up (context cancelled): implicit
